@@ -288,6 +288,9 @@ def check_case(case: dict[str, Any], ctx: Any = None) -> list[str]:
         except Exception as e:
             if ctx is not None:
                 ctx.count(f"direct_raised:{op}:{type(e).__name__}")
+                ctx.notes.setdefault("direct_raised_examples", [])
+                if len(ctx.notes["direct_raised_examples"]) < 3:
+                    ctx.notes["direct_raised_examples"].append(f"{op}: {type(e).__name__}: {str(e)[:200]} | {fam}")
             continue
         for t in new:
             msgs.extend(check_tree(f, fresh, log, t, f"tree produced by {op}"))
